@@ -40,6 +40,8 @@ def gen_cases(tier, seed):
                     continue
                 cases.append(dict(ep="bw", shape=sh, m=m, retain=rg, seed=seed))
             cases.append(dict(ep="mtl", shape="mtl", m=m, retain=rg, seed=seed))
+            if m >= 2:  # some losses do not depend on the features at all: their Jacobian rows are zero, the sweeps are the same
+                cases.append(dict(ep="mtl", shape="mtl-inactive", m=m, retain=rg, seed=seed))
     return cases
 
 
@@ -77,7 +79,7 @@ def _build_bw(shape, m, seed, novmap):
     return dict(params=[a, b], hook_on=h, outs=outs)
 
 
-def _build_mtl(m, seed, novmap):
+def _build_mtl(m, seed, novmap, inactive=False):
     import torch
 
     from mc.seams import NoVmapIdentity
@@ -94,6 +96,8 @@ def _build_mtl(m, seed, novmap):
         p = torch.tensor(W[i], dtype=torch.float64, requires_grad=True)
         ps.append(p)
         z = (f0 * p).sum() + (0.5 + i) * f1.sum()
+        if inactive and (i == m - 1 or i % 3 == 1):
+            z = (p * p).sum()  # ignores the shared features
         if novmap == "head":
             z = NoVmapIdentity.apply(z)
         losses.append(z)
@@ -126,7 +130,7 @@ def run_case(case):
     ep, m, rg, seed = case["ep"], case["m"], case["retain"], case["seed"]
     w = [float(i + 1) * (-1.0 if i % 3 == 2 else 1.0) for i in range(m)]
     viol, outcomes, execs, nontriv = [], set(), 0, 0
-    build = (lambda nv: _build_bw(case["shape"], m, seed, nv)) if ep == "bw" else (lambda nv: _build_mtl(m, seed, nv))
+    build = (lambda nv: _build_bw(case["shape"], m, seed, nv)) if ep == "bw" else (lambda nv: _build_mtl(m, seed, nv, case["shape"] == "mtl-inactive"))
     # twin: torch.autograd with grad_tensors = w
     T = build(False)
     if ep == "bw":
